@@ -135,12 +135,35 @@ pub fn check_input(inp: &V4, class: &str, rep: &mut Report) {
                 None => cert = false,
             }
         }
+        // second form of the certificate (any n, exact): the returned state itself is a tie
+        // state. With many tied coefficients the rounding of each tie depends on floating-point
+        // noise and the walk through the 2^ties equivalent states need not be periodic.
+        let mut exact_ties: Option<usize> = None;
+        if !cert {
+            if let Some(t) = tie_state_exact(f, g, &a.1, &a.2) {
+                cert = true;
+                exact_ties = Some(t);
+                rep.count("tie_states_certified_by_exact_identity", 1);
+                rep.stat_max("max_tied_coefficients", t as f64);
+            }
+        } else if tie_state_exact(f, g, &states[0].0, &states[0].1).is_some() {
+            rep.count("periodic_tie_cycles_also_certified_by_exact_identity", 1);
+        }
         if cert {
             rep.count("tie_cycles", 1);
-            rep.count(&format!("tie_cycle_orbit_{}", states.len()), 1);
+            let how = match exact_ties {
+                Some(t) => {
+                    rep.count("tie_cycle_aperiodic", 1);
+                    format!("wandering (no period within 64 calls) among states whose exact quotient has {} coefficients equal to +-1/2 (exact integer identity checked)", t)
+                }
+                None => {
+                    rep.count(&format!("tie_cycle_orbit_{}", states.len()), 1);
+                    format!("cycling through {} pairs at a rounding tie", states.len())
+                }
+            };
             rep.violation(
                 "babai-tie-cycle",
-                format!("n={} ({}): both implementations give up after 1000 rounds, cycling through {} pairs at a rounding tie (f={:?} g={:?} F={:?} G={:?})", n, class, states.len(), &f[..n.min(4)], &g[..n.min(4)], &cf[..n.min(4)], &cg[..n.min(4)]),
+                format!("n={} ({}): both implementations give up after 1000 rounds, {} (f={:?} g={:?} F={:?} G={:?})", n, class, how, &f[..n.min(4)], &g[..n.min(4)], &cf[..n.min(4)], &cg[..n.min(4)]),
                 replay(),
             );
         } else {
@@ -194,6 +217,37 @@ fn exact_quotient(f: &[i64], g: &[i64], cf: &[i64], cg: &[i64]) -> Option<Vec<nu
         }
     }
     Some((0..n).map(|i| m[i][n].clone()).collect())
+}
+
+/// Exact certificate of a rounding-tie state for ANY n: the exact quotient
+/// q = (F f* + G g*) / (f f* + g g*) equals M/2 for an integer polynomial M with every
+/// |M_i| <= 1 and at least one M_i odd. M is guessed in double precision (the numbers are
+/// small in a reduced state) and then VERIFIED by the exact integer identity
+/// (f f* + g g*) M = 2 (F f* + G g*) over Z[X]/(X^n+1). Returns the number of tied coefficients.
+fn tie_state_exact(f: &[i64], g: &[i64], cf: &[i64], cg: &[i64]) -> Option<usize> {
+    use crate::refs::ffs::{fft, ifft, C};
+    let n = f.len();
+    let den: Vec<i128> = spec::negamul_z(f, &adjoint(f)).iter().zip(spec::negamul_z(g, &adjoint(g)).iter()).map(|(a, b)| a + b).collect();
+    let num_: Vec<i128> = spec::negamul_z(cf, &adjoint(f)).iter().zip(spec::negamul_z(cg, &adjoint(g)).iter()).map(|(a, b)| a + b).collect();
+    if den.iter().chain(num_.iter()).any(|x| x.abs() > 1 << 50) {
+        return None;
+    }
+    let dh = fft(&den.iter().map(|&x| x as f64).collect::<Vec<f64>>());
+    let nh = fft(&num_.iter().map(|&x| 2.0 * x as f64).collect::<Vec<f64>>());
+    if dh.iter().any(|c| c.0.abs() < 1e-9) {
+        return None;
+    }
+    let m: Vec<i64> = ifft(&(0..n).map(|k| nh[k].div(C(dh[k].0, 0.0))).collect::<Vec<C>>()).iter().map(|x| x.round() as i64).collect();
+    if m.iter().any(|x| x.abs() > 1) || m.iter().all(|x| x % 2 == 0) {
+        return None;
+    }
+    let den64: Vec<i64> = den.iter().map(|&x| x as i64).collect();
+    let lhs = spec::negamul_z(&den64, &m);
+    if (0..n).all(|i| lhs[i] == 2 * num_[i]) {
+        Some(m.iter().filter(|x| *x % 2 != 0).count())
+    } else {
+        None
+    }
 }
 
 fn gauss(rng: &mut ChaCha20Rng, sigma: f64) -> i64 {
@@ -664,6 +718,59 @@ pub fn synthetic(ctx: &Ctx, rep: &mut Report) {
                 rep.count("zero_FG_inputs", 1);
             }
         }
+    }
+    // the same low-degree basis (f,g), zero-padded to different ring sizes, reduced back to back
+    // on ONE thread with a fresh unreduced (F,G) each time: per-basis state kept between calls
+    // must not survive a change of n
+    {
+        let mut rng = rng_for(ctx.seed, "c17-cross-size");
+        let sizes: Vec<usize> = (1..=10).map(|k| 1usize << k).collect();
+        for round in 0..ctx.sz(6, 80) {
+            let deg = rng.gen_range(1..=2usize);
+            let hf: Vec<i64> = (0..deg).map(|_| rng.gen_range(-6i64..=6)).collect();
+            let mut hg: Vec<i64> = (0..deg).map(|_| rng.gen_range(-6i64..=6)).collect();
+            if hf.iter().chain(hg.iter()).all(|&x| x == 0) {
+                hg[0] = 1;
+            }
+            let mut order: Vec<usize> = sizes.iter().cloned().filter(|&n| n >= deg).collect();
+            match round % 3 {
+                1 => order.reverse(),
+                2 => {
+                    for k in (1..order.len()).rev() {
+                        let j = rng.gen_range(0..=k);
+                        order.swap(k, j);
+                    }
+                }
+                _ => {}
+            }
+            // big-integer reference is slow at the largest sizes: keep two of them per walk
+            let mut big = 0;
+            for &n in &order {
+                if n >= 512 {
+                    big += 1;
+                    if big > 2 && round % 2 == 1 {
+                        continue;
+                    }
+                }
+                let embed = |h: &Vec<i64>| {
+                    let mut v = vec![0i64; n];
+                    v[..h.len()].copy_from_slice(h);
+                    v
+                };
+                let (f, g) = (embed(&hf), embed(&hg));
+                let k: Vec<i64> = (0..n).map(|_| rng.gen_range(-(1i64 << 16)..=(1 << 16))).collect();
+                let (kf, kg) = (spec::negamul_z(&k, &f), spec::negamul_z(&k, &g));
+                let cf: Vec<i64> = (0..n).map(|t| kf[t] as i64 + rng.gen_range(-3..=3)).collect();
+                let cg: Vec<i64> = (0..n).map(|t| kg[t] as i64 + rng.gen_range(-3..=3)).collect();
+                if cf.iter().chain(cg.iter()).any(|x| x.abs() >= 1 << 24) {
+                    continue;
+                }
+                check_input(&(f, g, cf, cg), "same-low-degree-basis-at-another-size", rep);
+                rep.count("cross_size_basis_steps", 1);
+            }
+            rep.count("cross_size_basis_walks", 1);
+        }
+        rep.require("cross_size_basis_walks", 3);
     }
     // near ties at production amplitude (see near_tie_input)
     let deltas = [2e-10f64, 5e-10, 1e-9, 2e-9, 4e-9, 1.6e-8, -2e-10, -5e-10, -1e-9, -2e-9, -4e-9, -1.6e-8];
